@@ -85,6 +85,15 @@ Theorem C20_mux_prefixes_nonempty : forall ops r,
 Proof. exact ref_run_keys_nonempty. Qed.
 Print Assumptions C20_mux_prefixes_nonempty.
 
+(** Registration order of (distinct, non-empty) prefixes is irrelevant. *)
+Theorem C20_mux_order_irrelevant : forall l l',
+  NoDup (keys l) -> (forall w, In w (keys l) -> w <> []) -> Permutation l l' ->
+  exists m m', mux_run new_mux (prefix_ops l) = Some (m, map (fun _ => true) l) /\
+               mux_run new_mux (prefix_ops l') = Some (m', map (fun _ => true) l') /\
+               forall path, mux_route m path = mux_route m' path.
+Proof. exact mux_order_irrelevant. Qed.
+Print Assumptions C20_mux_order_irrelevant.
+
 (** * package trie — the segment trie *)
 
 Theorem C20_segtrie_find_longest : forall adds,
@@ -141,7 +150,7 @@ Print Assumptions C20_router_no_panic.
 Theorem C20_router_remainder : forall c k, (k <= length (rel_route c))%nat ->
   rel_route (shift c k) = skipn k (rel_route c) /\
   rel_empty (shift c k) = (Nat.eqb k (length (rel_route c)) || rel_empty c)%bool.
-Proof. intros c k H. exact (conj (rel_route_shift c k H) (rel_empty_shift c k H)). Qed.
+Proof. exact router_remainder. Qed.
 Print Assumptions C20_router_remainder.
 
 (** Only the set of registered routes matters, not the order. *)
@@ -149,16 +158,14 @@ Theorem C20_router_order_irrelevant : forall R R' c,
   rr_index R = rr_index R' -> rr_miss R = rr_miss R' ->
   NoDup (map fst (rr_regs R)) -> Permutation (rr_regs R) (rr_regs R') ->
   ref_router_serve R c = ref_router_serve R' c.
-Proof.
-  intros R R' c Ei Em ND P. exact (ref_serve_ext R R' c Ei Em (fun rt => rlookup_perm _ _ rt ND P)).
-Qed.
+Proof. exact router_order_irrelevant. Qed.
 Print Assumptions C20_router_order_irrelevant.
 
 (** Path splitting: segments are non-empty and slash-free, and the canonical
     path string determines them. *)
 Theorem C20_route_canonical : forall p q,
   Forall good_seg (segs p) /\ (route_p (segs p) = route_p (segs q) -> segs p = segs q).
-Proof. intros p q. exact (conj (segs_good p) (route_p_inj _ _ (segs_good p) (segs_good q))). Qed.
+Proof. exact route_canonical. Qed.
 Print Assumptions C20_route_canonical.
 
 (** * aries/service_set.go *)
